@@ -53,17 +53,24 @@ static int ev_code(TrackerState::event_enum e) {
 }
 static std::mutex        g_req_lock;
 static std::vector<Req>  g_reqs;
+static std::vector<int>  g_scrapes;              // scrape requests handed to workers (tracker id)
+static std::atomic<int>  g_pending{-1};          // worker whose result callback is queued for the main thread (dok/dfl), -1 none
 
 // Scripted tracker: what TrackerHttp/TrackerUdp do to the shared TrackerState, minus the network.
 class VWorker : public torrent::TrackerWorker {
 public:
-  VWorker(torrent::TrackerInfo info, int id) : torrent::TrackerWorker(std::move(info), TrackerState::flag_enabled), m_id(id) {}
+  VWorker(torrent::TrackerInfo info, int id, bool scrapable = false)
+    : torrent::TrackerWorker(std::move(info), TrackerState::flag_enabled | (scrapable ? TrackerState::flag_scrapable : 0)), m_id(id) {}
 
   torrent::tracker_enum type() const override { return torrent::TRACKER_HTTP; }
 
   // tracker thread (called by tracker::Manager::send_event's callback after mark_starting_request)
   void send_event(torrent::tracker::TrackerParams params, TrackerState::event_enum ev) override {
-    int replaced = m_inflight ? 1 : 0;           // close_directly(): a pending request is dropped
+    // close_directly(): a pending request is dropped and queued result callbacks of this tracker are cancelled
+    remove_events();
+    int expected = m_id;
+    g_pending.compare_exchange_strong(expected, -1);
+    int replaced = m_inflight ? 1 : 0;
     m_inflight = true;
     lock_and_set_latest_event(ev);
     {
@@ -74,7 +81,15 @@ public:
     state().m_flags &= ~TrackerState::flag_starting_request;
     state().m_flags |= TrackerState::flag_requesting;
   }
-  void send_scrape(torrent::tracker::TrackerParams) override {}
+  // tracker thread (tracker::Manager::send_scrape's callback; no mark_starting_request for scrapes)
+  void send_scrape(torrent::tracker::TrackerParams) override {
+    m_inflight = true;
+    lock_and_set_latest_event(TrackerState::EVENT_SCRAPE);
+    { std::scoped_lock g(g_req_lock); g_scrapes.push_back(m_id); }
+    auto guard = lock_guard();
+    state().m_flags |= TrackerState::flag_requesting;
+  }
+  bool scraping() { auto guard = lock_guard(); return state().latest_event() == TrackerState::EVENT_SCRAPE; }
   void close() override { finish(); }
   void cleanup() override {
     finish();
@@ -90,7 +105,9 @@ public:
   // tracker thread: the reply arrives
   void reply_success(int64_t iv, int64_t mv, unsigned np) {
     if (!m_inflight) return;
+    bool scr = scraping();
     finish();
+    if (scr) { m_slot_scrape_success(); return; }
     {
       auto guard = lock_guard();
       state().set_normal_interval(std::chrono::seconds(iv));
@@ -107,7 +124,9 @@ public:
   }
   void reply_failure(bool with_intervals, int64_t iv, int64_t mv) {
     if (!m_inflight) return;
+    bool scr = scraping();
     finish();
+    if (scr) { m_slot_scrape_failure("failed"); return; }
     if (with_intervals) {
       auto guard = lock_guard();
       state().set_normal_interval(std::chrono::seconds(iv));
@@ -142,14 +161,66 @@ static void on_tracker(std::function<void()> fn) {
   while (f.wait_for(20ms) != std::future_status::ready) torrent::tracker_thread::thread()->interrupt();
 }
 
-static void quiesce() {
+// tracker thread has handled everything queued for it so far
+static void sync_tracker() { on_tracker([] {}); }
+
+// the main thread runs its queued callbacks (results of workers, enable/disable notifications) until stable
+static void drain_main() {
   for (int round = 0; round < 4; round++) {
-    on_tracker([] {});
+    sync_tracker();
     bool had = g_main->has_any_callbacks();
     g_main->process_callbacks();
     if (!had && round >= 1) break;
   }
-  on_tracker([] {});
+  sync_tracker();
+  g_pending = -1;
+}
+
+static void quiesce() { drain_main(); }
+
+// The controller's two scheduler tasks through public accessors only.
+struct Tasks {
+  torrent::TrackerController& tc;
+  bool    t_on() const { return tc.is_timeout_queued(); }
+  bool    s_on() const { return tc.is_scrape_queued(); }
+  int64_t t_at() const { return tc.next_timeout(); }
+  int64_t s_at() const { return tc.next_scrape(); }
+};
+
+// stop the controller through its public interface (its destructor, run on this thread, erases both tasks)
+static void unschedule(torrent::TrackerController& tc) {
+  tc.disable();
+  tc.close();
+}
+
+// Scheduler::perform(now) restricted so that the order of two tasks due at the same instant (decided by the
+// scheduler heap, not constrained by the property) is fixed: the real scheduler is stepped to each due time in
+// turn; at a tie the scrape task is pushed back by re-arming it after the announce timer has run.
+static void perform_tasks(torrent::TrackerController& tc, int64_t now) {
+  Tasks k{tc};
+  auto sched = g_main->m_scheduler.get();
+  for (int i = 0; i < 4; i++) {
+    bool dt = k.t_on() && k.t_at() <= now, ds = k.s_on() && k.s_at() <= now;
+    if (!dt && !ds) break;
+    if (dt && ds && k.t_at() == k.s_at()) {
+      // tie: announce timer first. Take the scrape task out, run the scheduler (announce timer fires), re-arm it.
+      int64_t at = k.s_at();
+      tc.scrape_request(3600);                                    // move it out of the way (still queued, far future)
+      g_main->set_cached_time(std::chrono::microseconds(now));
+      sched->perform(std::chrono::microseconds(at));
+      sync_tracker();
+      // put it back at its original time: due now, fires in the next round
+      g_main->set_cached_time(std::chrono::microseconds(at));
+      tc.scrape_request(0);
+      g_main->set_cached_time(std::chrono::microseconds(now));
+      continue;
+    }
+    int64_t first = (dt && (!ds || k.t_at() <= k.s_at())) ? k.t_at() : k.s_at();
+    g_main->set_cached_time(std::chrono::microseconds(now));
+    sched->perform(std::chrono::microseconds(first));             // fires exactly the task(s) due at `first`
+    sync_tracker();                                                // what it handed to workers is in flight before the next task runs
+  }
+  g_main->set_cached_time(std::chrono::microseconds(now));
 }
 
 static std::string run_case(const std::vector<std::string>& t) {
@@ -159,11 +230,19 @@ static std::string run_case(const std::vector<std::string>& t) {
   if (t.at(p++) != "G") return "BADCASE";
   int k = std::stoi(t.at(p++));
   std::vector<int> groups;
-  for (int i = 0; i < k; i++) groups.push_back(std::stoi(t.at(p++)));
+  std::vector<bool> scrapable;                     // group token with suffix 's' = scrapable tracker
+  for (int i = 0; i < k; i++) {
+    std::string g = t.at(p++);
+    bool sc = !g.empty() && g.back() == 's';
+    if (sc) g.pop_back();
+    groups.push_back(std::stoi(g));
+    scrapable.push_back(sc);
+  }
   if (t.at(p++) != ";") return "BADCASE";
 
   g_main->set_cached_time(std::chrono::microseconds(now));
-  { std::scoped_lock g(g_req_lock); g_reqs.clear(); }
+  { std::scoped_lock g(g_req_lock); g_reqs.clear(); g_scrapes.clear(); }
+  g_pending = -1;
 
   torrent::DownloadInfo info;
   uint64_t left = 0, comp = 0;
@@ -180,6 +259,7 @@ static std::string run_case(const std::vector<std::string>& t) {
     // same wiring as DownloadMain::post_initialize()
     list.slot_success()          = [&tc](const auto& tr, auto al)        { return tc.receive_success(tr, al); };
     list.slot_failure()          = [&tc](const auto& tr, const auto& s)  { tc.receive_failure(tr, s); };
+    list.slot_scrape_success()   = [&tc](const auto& tr)                 { tc.receive_scrape(tr); };
     list.slot_tracker_enabled()  = [&tc](const auto& tr)                 { tc.receive_tracker_enabled(tr); };
     list.slot_tracker_disabled() = [&tc](const auto& tr)                 { tc.receive_tracker_disabled(tr); };
 
@@ -188,7 +268,7 @@ static std::string run_case(const std::vector<std::string>& t) {
       torrent::TrackerInfo ti;
       ti.url = "http://t" + std::to_string(i) + "/";
       ti.group = groups[i];
-      auto w = std::make_shared<VWorker>(ti, i);
+      auto w = std::make_shared<VWorker>(ti, i, scrapable[i]);
       workers.push_back(w);
       std::shared_ptr<torrent::TrackerWorker> base = w;
       list.insert(torrent::tracker::Tracker(std::move(base)));   // installs the real cross-thread slots
@@ -207,12 +287,20 @@ static std::string run_case(const std::vector<std::string>& t) {
         { std::string s = t[p]; size_t q; while ((q = s.find(':')) != std::string::npos) { a.push_back(s.substr(0, q)); s = s.substr(q + 1); } a.push_back(s); }
         const std::string& o = a[0];
         auto num = [&](size_t i) { return std::stoll(a.at(i)); };
+        if (o == "h") continue;                      // hint for the model only
+        // ops that queue main-thread callbacks themselves first let the main thread run what is queued
+        bool atomic_cb = o == "ok" || o == "fl" || o == "fi" || o == "te" || o == "td";
+        bool deferred = o == "dok" || o == "dfl" || o == "dfi";
+        if (atomic_cb) drain_main();
         if      (o == "en") tc.enable();
         else if (o == "ek") tc.enable(torrent::TrackerController::enable_dont_reset_stats);
         else if (o == "di") tc.disable();
         else if (o == "cl") tc.close();
-        else if (o == "ST")  { tc.enable(); tc.send_start_event(); }                                         // Download::start
-        else if (o == "STK") { tc.enable(torrent::TrackerController::enable_dont_reset_stats); }            // start_skip_tracker
+        // Download::start(flags) as src/torrent/download.cc does it: enable, baselines := totals, then 'started'
+        // (the D cases of harness/c13d.cc run the real Download::start; here it is only replayed on the controller)
+        else if (o == "ST")  { tc.enable(); info.set_uploaded_baseline(info.up_rate()->total()); info.set_completed_baseline(comp); tc.send_start_event(); }
+        else if (o == "STK") { tc.enable(torrent::TrackerController::enable_dont_reset_stats); info.set_uploaded_baseline(info.up_rate()->total()); info.set_completed_baseline(comp); }   // start_skip_tracker
+        else if (o == "STB") { tc.enable(); tc.send_start_event(); }                                       // start_keep_baseline
         else if (o == "SP")  { tc.send_stop_event(); tc.disable(); }                                        // Download::stop
         else if (o == "SPK") { tc.disable(); }                                                              // stop_skip_tracker
         else if (o == "ss") tc.send_start_event();
@@ -227,14 +315,19 @@ static std::string run_case(const std::vector<std::string>& t) {
         else if (o == "in") {                         // a tracker added while running (add_extra_tracker path of TrackerList::insert)
           torrent::TrackerInfo ti;
           ti.url = "http://t" + std::to_string(workers.size()) + "/";
-          ti.group = num(1);
-          auto w = std::make_shared<VWorker>(ti, (int)workers.size());
+          std::string g = a.at(1);
+          bool sc = !g.empty() && g.back() == 's';
+          if (sc) g.pop_back();
+          ti.group = std::stoi(g);
+          auto w = std::make_shared<VWorker>(ti, (int)workers.size(), sc);
           workers.push_back(w);
           std::shared_ptr<torrent::TrackerWorker> base = w;
           list.insert(torrent::tracker::Tracker(std::move(base)));
         }
         else if (o == "cy") list.cycle_group(num(1));
-        else if (o == "ok" || o == "fl" || o == "fi") {
+        else if (o == "dr") drain_main();
+        else if (o == "sr") tc.scrape_request(num(1));
+        else if (o == "ok" || o == "fl" || o == "fi" || deferred) {
           // target: insertion index, or b / B = first / last busy tracker in current list order
           int id = -1;
           if (a.at(1) == "b" || a.at(1) == "B") {
@@ -243,31 +336,41 @@ static std::string run_case(const std::vector<std::string>& t) {
               if (w->m_inflight) { id = w->m_id; if (a[1] == "b") break; }
             }
           } else if (num(1) < (long long)workers.size()) id = num(1);
-          if (id >= 0) {
+          // at most one result callback is kept queued: a deferred reply while one is queued is dropped
+          if (deferred && g_pending >= 0) id = -1;
+          if (id >= 0 && workers[id]->m_inflight) {
             auto w = workers[id];
-            if (o == "ok") { auto iv = num(2), mv = num(3); unsigned np = num(4); on_tracker([=] { w->reply_success(iv, mv, np); }); }
-            else if (o == "fl") on_tracker([=] { w->reply_failure(false, 0, 0); });
+            if (deferred) g_pending = id;
+            if (o == "ok" || o == "dok") { auto iv = num(2), mv = num(3); unsigned np = a.size() > 4 ? num(4) : 0; on_tracker([=] { w->reply_success(iv, mv, np); }); }
+            else if (o == "fl" || o == "dfl") on_tracker([=] { w->reply_failure(false, 0, 0); });
             else { auto iv = num(2), mv = num(3); on_tracker([=] { w->reply_failure(true, iv, mv); }); }
           }
         }
         else if (o == "st") { info.mutable_up_rate()->set_total(num(1)); comp = num(2); left = num(3); }
         else if (o == "bl") { info.set_uploaded_baseline(num(1)); info.set_completed_baseline(num(2)); }   // Download::start resets the baselines
-        else if (o == "ad" || o == "nx") {
+        else if (o == "ad" || o == "nx" || o == "nxs") {
+          bool run = true;
           if (o == "ad") now += num(1);
-          else if (tc.m_task_timeout.is_scheduled() && tc.m_task_timeout.time_or_zero().count() > now) now = tc.m_task_timeout.time_or_zero().count();
+          else if (o == "nx") { run = tc.is_timeout_queued(); if (run && tc.next_timeout() > now) now = tc.next_timeout(); }
+          else { run = tc.is_scrape_queued(); if (run && tc.next_scrape() > now) now = tc.next_scrape(); }
           g_main->set_cached_time(std::chrono::microseconds(now));
-          g_main->m_scheduler->perform(std::chrono::microseconds(now));
+          if (run) perform_tasks(tc, now);
         }
         else { out += "BADOP"; break; }
-        quiesce();
+        // the tracker thread handles what was handed to it; the main thread's queue is run only by dr and by
+        // the ops that queue callbacks themselves
+        sync_tracker();
+        if (atomic_cb) drain_main();
 
         if (!first) out += " | ";
         first = false;
         char buf[96];
         snprintf(buf, sizeof buf, "%lld %x ", (long long)now, (unsigned)tc.flags());
         out += buf;
-        out += tc.m_task_timeout.is_scheduled() ? std::to_string((long long)tc.m_task_timeout.time_or_zero().count()) : std::string("-");
+        out += tc.is_timeout_queued() ? std::to_string((long long)tc.next_timeout()) : std::string("-");
         out += " ";
+        out += tc.is_scrape_queued() ? std::to_string((long long)tc.next_scrape()) : std::string("-");
+        out += " P" + (g_pending >= 0 ? std::to_string((int)g_pending) : std::string("-")) + " ";
         bool ft = true;
         for (auto& tr : list) {
           auto st = tr.state();
@@ -277,7 +380,8 @@ static std::string run_case(const std::vector<std::string>& t) {
                  ((st.is_requesting() || st.is_starting_request()) ? "1" : "0") + "." + std::to_string(ev_code(st.latest_event())) + "." +
                  std::to_string(st.success_counter()) + "." + std::to_string(st.failed_counter()) + "." +
                  std::to_string((long long)st.success_time_last().count()) + "." + std::to_string((long long)st.failed_time_last().count()) + "." +
-                 std::to_string((long long)st.normal_interval().count()) + "." + std::to_string((long long)st.min_interval().count());
+                 std::to_string((long long)st.normal_interval().count()) + "." + std::to_string((long long)st.min_interval().count()) + "." +
+                 std::to_string((long long)st.scrape_time_last().count());
         }
         out += " R";
         {
@@ -289,6 +393,10 @@ static std::string run_case(const std::vector<std::string>& t) {
             out += std::to_string(r.id) + ":" + std::to_string(r.ev) + ":" + std::to_string(r.up) + ":" + std::to_string(r.comp) + ":" + std::to_string(r.left) + ":" + std::to_string(r.replaced);
           }
           g_reqs.clear();
+          out += " S";
+          bool fs = true;
+          for (int id : g_scrapes) { if (!fs) out += ","; fs = false; out += std::to_string(id); }
+          g_scrapes.clear();
         }
       }
     } catch (torrent::internal_error& e) {
@@ -304,8 +412,7 @@ static std::string run_case(const std::vector<std::string>& t) {
     for (auto& w : workers) w->finish();
     list.clear();
     quiesce();
-    g_main->m_scheduler->erase(&tc.m_task_timeout);
-    g_main->m_scheduler->erase(&tc.m_task_scrape);
+    unschedule(tc);
   }
   return out.empty() ? std::string("-") : out;
 }
@@ -404,9 +511,11 @@ static std::string run_udp_case(const std::vector<std::string>& t) {
         else if (o == "ST") { tc.disable(); tc.enable(); tc.send_start_event(); }
         else if (o == "SP") { tc.send_stop_event(); tc.disable(); tc.enable(torrent::TrackerController::enable_dont_reset_stats); }
         else if (o == "nx") {
-          if (tc.m_task_timeout.is_scheduled() && tc.m_task_timeout.time_or_zero().count() > now) now = tc.m_task_timeout.time_or_zero().count();
-          g_main->set_cached_time(std::chrono::microseconds(now));
-          g_main->m_scheduler->perform(std::chrono::microseconds(now));
+          if (tc.is_timeout_queued()) {
+            if (tc.next_timeout() > now) now = tc.next_timeout();
+            g_main->set_cached_time(std::chrono::microseconds(now));
+            perform_tasks(tc, now);
+          }
         }
         else { out += " BADOP"; break; }
         quiesce();
@@ -449,8 +558,186 @@ static std::string run_udp_case(const std::vector<std::string>& t) {
     for (auto& tr : list) { auto w = tr.get_worker(); on_tracker([w] { w->close(); }); }
     list.clear();
     quiesce();
-    g_main->m_scheduler->erase(&tc.m_task_timeout);
-    g_main->m_scheduler->erase(&tc.m_task_scrape);
+    unschedule(tc);
+  }
+  return out.empty() ? std::string("-") : out;
+}
+
+// ------------------------------------------------------------------ HTTP tracker with hand-stepped main thread
+// Case:  H <up> <comp> <left> ; <op> ...   ops: en ss sc sp mr nx ad:<us> ok fl dr
+// One REAL TrackerHttp (TrackerList::insert_url, real controller / tracker::Manager / tracker thread / net thread +
+// curl) announces to an in-process HTTP server. `ok` / `fl` let the server answer the request in flight and wait
+// until the TRACKER thread has consumed the reply; the main thread's queued result callback is run only by `dr`.
+// So "reply N is queued, the client issues a new event, then the main thread drains" is a scripted interleaving.
+// Output per op:  <flags_hex> <timeout_us|-> R<event:uploaded:downloaded:left,...>   (requests that reached the server)
+#include <condition_variable>
+#include <thread>
+#include "net/thread_net.h"
+#include "tracker/tracker_http.h"
+
+// the real TrackerHttp, only counting the requests handed to it (so the harness knows how many must reach the server)
+class HWorker : public torrent::TrackerHttp {
+public:
+  using torrent::TrackerHttp::TrackerHttp;
+  void send_event(torrent::tracker::TrackerParams params, TrackerState::event_enum ev) override {
+    m_sent++;
+    torrent::TrackerHttp::send_event(params, ev);
+  }
+  std::atomic<int> m_sent{0};
+};
+
+struct HttpSrv {
+  int lfd = -1; uint16_t port = 0;
+  std::mutex lock; std::condition_variable cond;
+  std::vector<std::string> targets;       // every GET target received, in order
+  std::vector<int> open_fds;              // connections waiting for an answer
+  std::atomic<bool> stop{false};
+
+  void start() {
+    lfd = socket(AF_INET, SOCK_STREAM, 0);
+    int one = 1; setsockopt(lfd, SOL_SOCKET, SO_REUSEADDR, &one, sizeof one);
+    sockaddr_in sa{}; sa.sin_family = AF_INET; sa.sin_addr.s_addr = htonl(INADDR_LOOPBACK);
+    if (bind(lfd, (sockaddr*)&sa, sizeof sa) != 0 || listen(lfd, 16) != 0) throw std::runtime_error("http bind");
+    socklen_t l = sizeof sa; getsockname(lfd, (sockaddr*)&sa, &l); port = ntohs(sa.sin_port);
+    std::thread([this] { run(); }).detach();
+  }
+  void run() {
+    while (!stop) {
+      int fd = accept(lfd, nullptr, nullptr);
+      if (fd < 0) { if (stop) return; continue; }
+      std::thread([this, fd] {
+        std::string req; char buf[4096];
+        while (req.find("\r\n\r\n") == std::string::npos) { ssize_t n = read(fd, buf, sizeof buf); if (n <= 0) break; req.append(buf, n); }
+        auto a = req.find(' '), b = req.find(' ', a + 1);
+        if (a == std::string::npos || b == std::string::npos) { close(fd); return; }
+        { std::scoped_lock g(lock); targets.push_back(req.substr(a + 1, b - a - 1)); open_fds.push_back(fd); }
+        cond.notify_all();
+      }).detach();
+    }
+  }
+  size_t count() { std::scoped_lock g(lock); return targets.size(); }
+  bool wait_count(size_t n, int ms) { std::unique_lock g(lock); return cond.wait_for(g, std::chrono::milliseconds(ms), [&] { return targets.size() >= n; }); }
+  // answer the newest connection, drop the older ones (their requests were replaced by the client)
+  bool answer(const std::string& body) {
+    std::vector<int> fds; { std::scoped_lock g(lock); fds.swap(open_fds); }
+    if (fds.empty()) return false;
+    std::string rep = "HTTP/1.0 200 OK\r\nContent-Type: text/plain\r\nContent-Length: " + std::to_string(body.size()) + "\r\nConnection: close\r\n\r\n" + body;
+    (void)!write(fds.back(), rep.data(), rep.size());
+    for (int fd : fds) { shutdown(fd, SHUT_RDWR); close(fd); }
+    return true;
+  }
+  void shutdown_all() {
+    stop = true;
+    std::vector<int> fds; { std::scoped_lock g(lock); fds.swap(open_fds); }
+    for (int fd : fds) close(fd);
+    if (lfd >= 0) { ::shutdown(lfd, SHUT_RDWR); close(lfd); }
+  }
+  static std::string param(const std::string& t, const std::string& key) {
+    auto pos = t.find("&" + key + "="); if (pos == std::string::npos) pos = t.find("?" + key + "=");
+    if (pos == std::string::npos) return "";
+    pos += key.size() + 2; auto end = t.find('&', pos);
+    return t.substr(pos, end == std::string::npos ? std::string::npos : end - pos);
+  }
+};
+
+static std::string run_http_case(const std::vector<std::string>& t) {
+  if (t.size() < 5 || t[4] != ";") return "BADCASE";
+  auto srv = std::make_shared<HttpSrv>();          // detached threads keep it alive
+  srv->start();
+  int64_t now = BASE_US;
+  g_main->set_cached_time(std::chrono::microseconds(now));
+  torrent::DownloadInfo info;
+  info.mutable_hash().assign("hhhhhhhhhhhhhhhhhhhh");
+  info.mutable_local_id().assign("-lt0000-abcdefghijkl");
+  uint64_t left = std::stoull(t[3]), comp = std::stoull(t[2]);
+  info.mutable_up_rate()->set_total(std::stoull(t[1]));
+  info.slot_left() = [&left]() { return left; };
+  info.slot_completed() = [&comp]() { return comp; };
+
+  std::string out;
+  {
+    torrent::TrackerList list;
+    list.set_info(&info);
+    list.set_key(7);
+    torrent::TrackerController tc(&list);
+    tc.slot_success() = [](torrent::AddressList*) -> uint32_t { return 0; };
+    tc.slot_failure() = [](const std::string&) {};
+    list.slot_success()          = [&tc](const auto& tr, auto al)        { return tc.receive_success(tr, al); };
+    list.slot_failure()          = [&tc](const auto& tr, const auto& s)  { tc.receive_failure(tr, s); };
+    list.slot_scrape_success()   = [&tc](const auto& tr)                 { tc.receive_scrape(tr); };
+    list.slot_tracker_enabled()  = [&tc](const auto& tr)                 { tc.receive_tracker_enabled(tr); };
+    list.slot_tracker_disabled() = [&tc](const auto& tr)                 { tc.receive_tracker_disabled(tr); };
+    std::shared_ptr<HWorker> hw;
+    try {
+      // what TrackerList::insert_url does for an http:// url, with the counting subclass
+      torrent::TrackerInfo ti;
+      ti.info_hash = info.hash();
+      ti.obfuscated_hash = info.hash_obfuscated();
+      ti.local_id = info.local_id();
+      ti.url = "http://127.0.0.1:" + std::to_string(srv->port) + "/announce";
+      ti.group = 0;
+      ti.key = 7;
+      hw = std::make_shared<HWorker>(ti, TrackerState::flag_enabled);
+      std::shared_ptr<torrent::TrackerWorker> base = hw;
+      list.insert(torrent::tracker::Tracker(std::move(base)));
+    } catch (std::exception& e) { srv->shutdown_all(); return std::string("SETUP-FAIL insert: ") + e.what(); }
+    if (list.size() != 1) { srv->shutdown_all(); return "SETUP-FAIL insert size"; }
+    drain_main();
+    auto tracker = *list.begin();
+    size_t seen = 0;
+    try {
+      for (size_t p = 5; p < t.size(); p++) {
+        const std::string& o = t[p];
+        size_t before = srv->count();
+        int sent_before = hw->m_sent;
+        bool replied = false;
+        if      (o == "en") tc.enable();
+        else if (o == "ss") tc.send_start_event();
+        else if (o == "sc") tc.send_completed_event();
+        else if (o == "sp") tc.send_stop_event();
+        else if (o == "mr") tc.manual_request(false);
+        else if (o == "dr") drain_main();
+        else if (o == "nx" || o.rfind("ad:", 0) == 0) {
+          bool run = true;
+          if (o == "nx") { run = tc.is_timeout_queued(); if (run && tc.next_timeout() > now) now = tc.next_timeout(); }
+          else now += std::stoll(o.substr(3));
+          g_main->set_cached_time(std::chrono::microseconds(now));
+          if (run) perform_tasks(tc, now);
+        }
+        else if (o == "ok") replied = srv->answer("d8:intervali1800e12:min intervali600e5:peers0:e");
+        else if (o == "fl") replied = srv->answer("d14:failure reason15:try again latere");
+        else { out += " BADOP"; break; }
+        sync_tracker();
+        if (replied) {
+          // the reply travels net thread -> tracker thread; wait until the worker has consumed it (NOT the main thread)
+          for (int i = 0; i < 2500 && tracker.is_requesting(); i++) { usleep(2000); }
+          sync_tracker();
+        }
+        // every request handed to the worker in this op reaches the server (curl paces new transfers: allow a few seconds)
+        if (hw->m_sent > sent_before) srv->wait_count(before + (hw->m_sent - sent_before), 8000);
+        if (p > 5) out += " | ";
+        char buf[64];
+        snprintf(buf, sizeof buf, "%x ", (unsigned)tc.flags());
+        out += buf;
+        out += tc.is_timeout_queued() ? std::to_string((long long)tc.next_timeout()) : std::string("-");
+        out += " R";
+        std::vector<std::string> tg; { std::scoped_lock g(srv->lock); tg = srv->targets; }
+        for (size_t i = seen; i < tg.size(); i++) {
+          std::string e = HttpSrv::param(tg[i], "event");
+          int code = e.empty() ? 0 : e == "completed" ? 1 : e == "started" ? 2 : e == "stopped" ? 3 : 9;
+          if (i > seen) out += ",";
+          out += std::to_string(code) + ":" + HttpSrv::param(tg[i], "uploaded") + ":" + HttpSrv::param(tg[i], "downloaded") + ":" + HttpSrv::param(tg[i], "left");
+        }
+        seen = tg.size();
+      }
+    } catch (torrent::internal_error& e) { out += std::string(" | ERR:internal ") + e.what();
+    } catch (std::exception& e) { out += std::string(" | ERR:other ") + e.what(); }
+    drain_main();
+    unschedule(tc);
+    for (auto& tr : list) { auto w = tr.get_worker(); on_tracker([w] { w->close(); }); }
+    srv->shutdown_all();
+    list.clear();
+    drain_main();
   }
   return out.empty() ? std::string("-") : out;
 }
@@ -461,20 +748,25 @@ int main() {
   torrent::ThreadMain::set_thread_base(g_main);
   torrent::RuntimeManager::initialize();
   g_main->init_thread();
+  torrent::ThreadNet::create_thread();             // curl stack of the real TrackerHttp (H cases)
   torrent::ThreadTracker::create_thread();
+  torrent::net_thread::thread()->init_thread();
   torrent::tracker_thread::thread()->init_thread();
+  torrent::net_thread::thread()->start_thread();
   torrent::tracker_thread::thread()->start_thread();
 
   std::string line;
   while (std::getline(std::cin, line)) {
     auto t = split_ws(line);
+    alarm(30);      // per-case watchdog: SIGALRM kills the process, ltv.run_sharded reports CRASH for this case and goes on
     try {
-      std::cout << ((!t.empty() && t[0] == "U") ? run_udp_case(t) : run_case(t)) << "\n";
+      std::cout << ((!t.empty() && t[0] == "U") ? run_udp_case(t) : (!t.empty() && t[0] == "H") ? run_http_case(t) : run_case(t)) << "\n";
     } catch (torrent::internal_error& e) {
       std::cout << "ERR:internal " << e.what() << "\n";
     } catch (std::exception& e) {
       std::cout << "ERR:other " << e.what() << "\n";
     }
+    alarm(0);
   }
   std::cout.flush();
   torrent::tracker_thread::thread()->stop_thread_wait();
